@@ -197,16 +197,19 @@ CHECKS['C15'] = dict(
     text="Explain/Explain.v models _clingo_symbol_to_sentence and its helpers (subject/object attribute consumption with its list.remove "
          "semantics, _entity_printer, _convert_verb, quote stripping, first-letter capitalisation) for atoms with at most one possible "
          "subject; on every run the model's sentence is compared byte for byte with the implementation's for every atom of every answer "
-         "set of the stream (signature records serialised from ClingoResultParser). Theorem: sentence shape (C15_sentence_shape), with a "
-         "worked example for the repaired letter case. The property itself is decided per answer set by the oracle on the implementation: "
+         "set of the stream (signature records serialised from ClingoResultParser). Theorems: Python's str.strip() removes exactly the surrounding "
+         "white space (C15_strip_spec); for facts of a declared concept with any number of keys/attributes and any values free of white space and "
+         "commas the sentence is 'There is <concept> with <attribute> equal to <value>, ...' naming the concept and every value in argument order "
+         "(C15_fact_sentence_closed_form_partial), and two atoms explained by the same sentence have the same (unquoted) argument values "
+         "(C15_distinct_atoms_distinct_sentences_partial); sentence shape (C15_sentence_shape). The property itself is decided per answer set by the oracle on the implementation: "
          "exactly one sentence per atom of a defined concept and none for others, distinct atoms give distinct sentences, every argument "
          "value and the concept name occur in the sentence, and - strictly, for the atoms of DECLARED concepts of every specification - "
          "compiling declarations + explanation gives a single answer set equal to the explained atoms (two known findings: unquoted "
          "values, a declared concept explained as a relation). Telingo traces (corpus problems and chains of up to 12/22 states) are "
          "explained state by state: the headings are the states of the trace in order and each state holds exactly the sentences of its "
-         "atoms. Partial: mentions-all / injectivity are not proved in Coq.",
+         "atoms. Partial: mentions-all / injectivity are proved for facts of declared concepts only (sentences with subject, verb or objects: oracle).",
     note="Trusted: Coq kernel; clingo for answer sets; serialisation of the parser's signature records; explanations of atoms with several possible subjects are outside the model (counted).",
-    technique="byte-exact Coq model of the sentence builder + per-answer-set oracle incl. read-back compilation",
+    technique="byte-exact Coq model of the sentence builder with closed-form and injectivity theorems for fact sentences + per-answer-set oracle incl. read-back compilation",
     design="6.C15")
 
 CHECKS['C01'] = dict(
